@@ -181,7 +181,7 @@ def coherence(obj):
             nrm = np.abs(rh.mink_sq(np.real(want[..., 1, :])))
         if np.any(nrm < 1e-12):
             return "skip:zero tangent vector", 0, 0, ""
-        return "judge", rp.tangent_dev(got, want), tol, ""
+        return "judge", rp.tangent_dev(got, want, project=(False, False)), tol, ""
     if isinstance(obj, H.Segment):
         sep = float(np.min(rp.klein_sep(pd[..., 0, :], pd[..., 1, :]))) if pd.size else 1.0
         kinds = rh.kind(np.real(pd), margin=1e-9)
@@ -209,6 +209,8 @@ def make_invariant(run):
             return
         if derived_from is not None:
             inherit(o, derived_from)
+        for src in _state.get("pending") or ():
+            inherit(o, src)            # created inside Class.combine([...])
         if o in _reported:
             return mon.skip("stale object already reported (or derived from one)")
         status, dev, tol, detail = coherence(o)
@@ -289,7 +291,7 @@ def obj_moved(v, pd0, ad0):
                 with np.errstate(all="ignore"):
                     ok = np.all(np.abs(rh.mink_sq(ad0[..., 1, :])) > 1e-12)
                 if ok:
-                    out = max(out, rp.tangent_dev(ad1, ad0))
+                    out = max(out, rp.tangent_dev(ad1, ad0, project=(False, False)))
             else:
                 fin = np.all(np.isfinite(ad0.astype(complex)), axis=-1) & \
                     (np.sum(np.abs(ad0) ** 2, axis=-1) > 0)
@@ -332,9 +334,11 @@ def attach_write_watch(run):
                 return
             for kind, v, a0, b0 in snaps:
                 if kind == "obj":
+                    if b0 is not None and v in _not_comparable:
+                        b0 = None      # derived data that need not follow the primary data
                     dev, why = obj_moved(v, a0, b0)
                     # in-place renormalisation is exact up to the data's own precision
-                    qtol = max(1e-10, 1e3 * eps_of(v)) if a0 is not None else 1e-10
+                    qtol = max(1e-10, 1e3 * prec_of(v)) if a0 is not None else 1e-10
                     mon.judge(dev, qtol, "query-purity/object-moved/%s" % label,
                               "%s changed the geometric content of a %s it was given %s"
                               % (label, type(v).__name__, why),
@@ -438,6 +442,23 @@ def setup(run):
                 inherit(new, s)
     attach.wrap_attr(run, P.ProjectiveObject, "_construct_from_object", construct_hook,
                      label="taint:construct")
+
+    # Class.combine([...]) is a classmethod: everything built inside it derives
+    # from the objects in its argument list
+    def combine_pre(call):
+        objs = call.args[1] if len(call.args) > 1 else call.kwargs.get("to_combine", ())
+        try:
+            _state["pending"] = [o for o in objs if isinstance(o, P.ProjectiveObject)]
+        except TypeError:
+            _state["pending"] = []
+        return None
+
+    def combine_post(call, st):
+        pend = _state.pop("pending", None) or []
+        if call.exc is None and isinstance(call.result, P.ProjectiveObject):
+            inherit(call.result, *pend)
+    attach.wrap_attr(run, P.ProjectiveObject, "combine", combine_post, pre=combine_pre,
+                     label="taint:combine")
 
     attach_write_watch(run)
     for cls in _classes():
@@ -719,15 +740,11 @@ ROUTES = ["arrays", "objects", "stack-units", "class-copy"]
 
 
 def construct(rng, kind, n, shape, route):
-    from geometry_tools import hyperbolic as H
     raw = G.draw(rng, kind, n, shape)
     prim = G.primary(kind, raw)
     cls = G.class_of(kind)
     if route == "arrays":
-        if kind == "H.TangentVector":
-            obj = cls(prim.copy())
-        else:
-            obj = cls(prim.copy())
+        obj = cls(prim.copy())
     elif route == "stack-units" and len(shape) == 1:
         obj = cls([G.build(kind, G.unit_raw(raw, i)) for i in np.ndindex(*shape)])
     elif route == "class-copy":
@@ -824,6 +841,10 @@ def wl_queries(run, rng, idx):
     shape = G.OBJ_SHAPES[(idx // len(kinds)) % len(G.OBJ_SHAPES)]
     n = max(2, G.KINDS[kind][0]) + (idx // 95) % 2
     raw = G.draw(rng, kind, n, shape)
+    if kind in ("H.Point", "H.IdealPoint", "H.DualPoint", "H.PointPair", "H.Geodesic") and idx % 2:
+        # hostile class: negative representatives (per unit row)
+        for k in raw:
+            raw[k] = raw[k] * rng.choice([-1.0, 1.0], size=raw[k].shape[:-1] + (1,))
     _state["history"] = {"kind": kind, "dimension": n, "shape": list(shape), "ops": ["queries"]}
     run.current_case = dict(_state["history"], raw=raw)
     X = G.build(kind, raw)
@@ -839,7 +860,8 @@ def wl_queries(run, rng, idx):
                 klein0 = np.array(X.coords("klein"), copy=True)
                 X.coords("hyperboloid")
                 X.coords("halfspace")
-                other = H.Point(G.interior(rng, n, shape))
+                other = H.Point(G.interior(rng, n, shape) *
+                                rng.choice([-1.0, 1.0], size=tuple(shape) + (1,)))
                 X.distance(other)
                 X.origin_to()
                 X.unit_tangent_towards(other)
@@ -898,7 +920,7 @@ def wl_queries(run, rng, idx):
 
 
 WORKLOADS = [
-    Workload("history", wl_history, quick=900, thorough=16000),
-    Workload("setitem-combine", wl_setitem_combine, quick=300, thorough=3000),
-    Workload("queries", wl_queries, quick=285, thorough=2850),
+    Workload("history", wl_history, quick=600, thorough=16000),
+    Workload("setitem-combine", wl_setitem_combine, quick=200, thorough=3000),
+    Workload("queries", wl_queries, quick=190, thorough=2850),
 ]
